@@ -7,8 +7,10 @@ CONSTANTS
     KeySeq <- KeySeqGen
     ZeroSerials = {"z0"}
     Impl = "intended"
+    ZeroSerialPanics = FALSE
     MaxOps = 4
     PageSizes = {0, 1, 2}
+    PageModes = {"key", "total", "offset"}
     WithQueries = TRUE
 VIEW RegView
 INVARIANTS TypeOK
